@@ -6,3 +6,6 @@ import Theorems.C03
 #print axioms C03.known_bad_witness
 #print axioms C03.cyclic_structure
 #print axioms C03.sphere_packing
+#print axioms C03.info_instances_ok
+#print axioms C03.info_instances_in_catalogue
+#print axioms C03.min_distance_large
